@@ -130,7 +130,8 @@ class ExtendedEOF(EOF):
             X_extended.append(X.shift({self.sample_name: -i}))
         X_extended = xr.concat(X_extended, dim="embedding")
         n_samples_cut = (embedding - 1) * tau
-        X_extended = X_extended.isel({self.sample_name: slice(None, -n_samples_cut)})
+        n_samples_keep = X.coords[self.sample_name].size - n_samples_cut
+        X_extended = X_extended.isel({self.sample_name: slice(None, n_samples_keep)})
         X_extended.coords.update({"embedding": shift})
 
         # Perform standard PCA on extended data
